@@ -1,6 +1,7 @@
 import OrbitModel.Proofs.DecodeSafe
 import OrbitModel.Proofs.Uvarint
-import OrbitModel.Proofs.GenEq
+import OrbitModel.Proofs.GenEqFrame
+import OrbitModel.Proofs.GenEqListener
 /-!
 # C12 — malformed network messages never crash a peer or change its state
 
